@@ -430,7 +430,7 @@ fn check_pair(ev: &mut Ev, model: &mut Model, t: &Tables, result: &Value, info: 
             } else if proc_incoherent {
                 "equal=process-handle-function-index".to_string()
             } else if resource {
-                "equal=resource-never-equal".to_string()
+                "equal=resource-never-equal-to-itself".to_string()
             } else {
                 let mut ks: Vec<&str> = ks.keys().copied().collect();
                 ks.sort();
@@ -456,7 +456,7 @@ fn check_pair(ev: &mut Ev, model: &mut Model, t: &Tables, result: &Value, info: 
 // ---------- (a) canonical tuple tables ----------
 
 fn part_canon(ev: &mut Ev, model: &mut Model, opts: &Opts) {
-    let n = opts.tier.pick(400u64, 6000u64);
+    let n = opts.tier.pick(1000u64, 12000u64);
     let names = [None, Some("P"), Some("Q"), Some("Ok"), Some("Pp")];
     let labels = [None, Some("x"), Some("y"), Some("xx")];
     for i in 0..n {
@@ -570,7 +570,7 @@ fn gen_case(r: &mut Rng, sim: bool) -> Case {
 }
 
 fn part_sync(ev: &mut Ev, model: &mut Model, opts: &Opts, b: &Builtins) {
-    let n = opts.tier.pick(1800u64, 60000u64);
+    let n = opts.tier.pick(6000u64, 150000u64);
     for i in 0..n {
         let mut r = Rng::for_case(opts.seed ^ 0x5C_0002, i);
         let c = gen_case(&mut r, false);
@@ -603,6 +603,12 @@ fn run_sync_case(
         }
     };
     let bc = unit.program.to_bytecode(Some(unit.entry));
+    if std::env::var("C13_DUMP").is_ok() {
+        for (i, f) in bc.functions.iter().enumerate() {
+            eprintln!("fn {i}: {:?}", f.instructions);
+        }
+        eprintln!("types: {:?}", bc.types.iter().enumerate().collect::<Vec<_>>());
+    }
     let (tuples, consts) = (bc.tuples.clone(), bc.constants.clone());
     let (out, ex) = run_sync(bc, b, false);
     match (out, ex) {
@@ -735,7 +741,7 @@ fn collect_refs(v: &Value, out: &mut Vec<u64>) {
 }
 
 fn part_sim(ev: &mut Ev, model: &mut Model, opts: &Opts, b: &Builtins) {
-    let n = opts.tier.pick(260u64, 9000u64);
+    let n = opts.tier.pick(900u64, 25000u64);
     for i in 0..n {
         let mut r = Rng::for_case(opts.seed ^ 0x51_0003, i);
         let c = gen_case(&mut r, true);
@@ -748,7 +754,7 @@ fn part_sim(ev: &mut Ev, model: &mut Model, opts: &Opts, b: &Builtins) {
 // ---------- (c) refs ----------
 
 fn part_refs(ev: &mut Ev, model: &mut Model, opts: &Opts, b: &Builtins) {
-    let n = opts.tier.pick(24u64, 400u64);
+    let n = opts.tier.pick(60u64, 1500u64);
     for i in 0..n {
         let mut r = Rng::for_case(opts.seed ^ 0x4E_0004, i);
         let workers = 1 + r.usize(4);
@@ -868,6 +874,234 @@ fn part_refs(ev: &mut Ev, model: &mut Model, opts: &Opts, b: &Builtins) {
         ev.hit("refs:boundary-formula");
         if a.parse::<u64>().ok() != Some(*w) {
             ev.violation("tie=mintref", &format!("{q}: model {a}, u64 formula {w}"), json!({"broken": "mintRef vs u64 formula", "request": q}), false);
+        }
+    }
+}
+
+// ---------- (d) direct tie of `values_equal` / `create_ref` through the verif hooks ----------
+
+fn ctxraw_line(tuples: &[TupleTypeInfo], canon: &[usize], consts: &[Constant], heap: &[Vec<u8>]) -> String {
+    let full = ctx_line(tuples, consts, heap);
+    // (ctx (tuples …) (consts …) (heap …))  ->  (ctxraw (tuples …) (canon …) (consts …) (heap …))
+    let rest = full.strip_prefix("(ctx ").unwrap();
+    let k = rest.find(" (consts").unwrap();
+    let canon_s: Vec<String> = canon.iter().map(|c| c.to_string()).collect();
+    format!("(ctxraw {} (canon{}{}){}", &rest[..k], if canon_s.is_empty() { "" } else { " " }, canon_s.join(" "), &rest[k..])
+}
+
+struct Direct {
+    ntuples: usize,
+    nconsts: usize,
+    heap_handles: Vec<usize>,
+    arities: Vec<usize>,
+}
+
+fn gen_raw(r: &mut Rng, d: &Direct, depth: usize) -> Value {
+    use num_bigint::BigInt;
+    let k = if depth == 0 { r.below(8) } else { r.below(11) };
+    match k {
+        0 => Value::Integer(BigInt::from(r.range(-2, 3))),
+        1 => Value::Integer(BigInt::from(r.next()) * BigInt::from(r.below(3))),
+        2 => Value::Binary(Binary::Constant(r.usize(d.nconsts + 2))),
+        3 => {
+            if d.heap_handles.is_empty() || r.below(8) == 0 {
+                Value::Binary(Binary::Heap(90 + r.usize(3)))
+            } else {
+                Value::Binary(Binary::Heap(d.heap_handles[r.usize(d.heap_handles.len())]))
+            }
+        }
+        4 => Value::Reference(match r.below(3) {
+            0 => r.below(3),
+            1 => (r.below(3) << 48) | r.below(3),
+            _ => r.next(),
+        }),
+        5 => Value::Builtin(r.usize(3)),
+        6 => Value::Process(r.usize(3), r.usize(3)),
+        7 => Value::Resource(r.usize(3), r.usize(3)),
+        8 | 9 => {
+            let id = r.usize(d.ntuples + 2);
+            // mostly the declared arity, sometimes another one
+            let ar = if id < d.arities.len() && r.below(5) != 0 { d.arities[id] } else { r.usize(4) };
+            Value::tuple(id, (0..ar).map(|_| gen_raw(r, d, depth - 1)).collect())
+        }
+        _ => Value::Function(r.usize(3), std::sync::Arc::new((0..r.usize(3)).map(|_| gen_raw(r, d, depth - 1)).collect())),
+    }
+}
+
+/// Another representation / a near miss of `v`: other tuple id, other binary handle, one leaf changed.
+fn vary_raw(v: &Value, r: &mut Rng, d: &Direct) -> Value {
+    match v {
+        Value::Tuple(id, fs) => {
+            let id2 = if r.below(3) == 0 { r.usize(d.ntuples + 2) } else { *id };
+            let mut f2: Vec<Value> = fs.iter().map(|f| if r.below(3) == 0 { vary_raw(f, r, d) } else { f.clone() }).collect();
+            if r.below(12) == 0 {
+                f2.pop();
+            }
+            Value::tuple(id2, f2)
+        }
+        Value::Function(id, cs) => {
+            let id2 = if r.below(5) == 0 { r.usize(3) } else { *id };
+            Value::Function(id2, std::sync::Arc::new(cs.iter().map(|f| if r.below(3) == 0 { vary_raw(f, r, d) } else { f.clone() }).collect()))
+        }
+        Value::Binary(_) => match r.below(3) {
+            0 => Value::Binary(Binary::Constant(r.usize(d.nconsts + 1))),
+            1 if !d.heap_handles.is_empty() => Value::Binary(Binary::Heap(d.heap_handles[r.usize(d.heap_handles.len())])),
+            _ => v.clone(),
+        },
+        Value::Process(p, f) => match r.below(3) {
+            0 => Value::Process(*p, r.usize(3)),
+            1 => Value::Process(r.usize(3), *f),
+            _ => v.clone(),
+        },
+        Value::Resource(p, t) => match r.below(3) {
+            0 => Value::Resource(*p, r.usize(3)),
+            1 => Value::Resource(r.usize(3), *t),
+            _ => v.clone(),
+        },
+        _ => {
+            if r.below(2) == 0 {
+                v.clone()
+            } else {
+                gen_raw(r, d, 0)
+            }
+        }
+    }
+}
+
+fn part_direct(ev: &mut Ev, model: &mut Model, opts: &Opts, b: &Builtins) {
+    use quiver_core::executor::ProgramUpdate;
+    let n = opts.tier.pick(700u64, 20000u64);
+    let names = [None, Some("P"), Some("Q")];
+    let labels = [None, Some("x"), Some("y")];
+    let pool: [&[u8]; 5] = [&[], &[1], &[1, 2], &[1, 2, 3], &[0]];
+    for i in 0..n {
+        let mut r = Rng::for_case(opts.seed ^ 0xD1_0005, i);
+        let mut tuples = vec![
+            TupleTypeInfo { name: None, fields: vec![] },
+            TupleTypeInfo { name: Some("Ok".into()), fields: vec![] },
+        ];
+        for _ in 0..r.usize(7) {
+            let t = if r.below(2) == 0 && tuples.len() > 2 {
+                let mut t = tuples[2 + r.usize(tuples.len() - 2)].clone();
+                t.fields.iter_mut().for_each(|f| f.1 = r.usize(5));
+                t
+            } else {
+                TupleTypeInfo {
+                    name: names[r.usize(names.len())].map(String::from),
+                    fields: (0..r.usize(3)).map(|_| (labels[r.usize(labels.len())].map(String::from), r.usize(5))).collect(),
+                }
+            };
+            tuples.push(t);
+        }
+        let mut canon = compute_canonical_tuples(&tuples);
+        // sometimes the executor's table is stale (shorter): `canonical_tuple` falls back to the id
+        let stale = r.below(6) == 0;
+        if stale {
+            canon.truncate(r.usize(canon.len() + 1));
+        }
+        let consts: Vec<Constant> = (0..r.usize(6))
+            .map(|_| {
+                if r.below(3) == 0 {
+                    Constant::Integer(num_bigint::BigInt::from(r.range(0, 3)))
+                } else {
+                    Constant::Binary(pool[r.usize(pool.len())].to_vec())
+                }
+            })
+            .collect();
+        let mut ex = qverif::run::Exec::new(b.clone(), false, 0);
+        ex.update_program(ProgramUpdate {
+            constants: consts.clone(),
+            functions: vec![],
+            tuples: tuples[2..].to_vec(),
+            types: vec![],
+            builtins: vec![],
+            resources: vec![],
+            type_compatibility: vec![],
+            function_param_compatibility: vec![],
+            builtin_param_compatibility: vec![],
+            canonical_tuples: canon.clone(),
+        });
+        let mut heap: Vec<Vec<u8>> = vec![];
+        let mut handles = vec![];
+        for _ in 0..r.usize(6) {
+            let bytes = pool[r.usize(pool.len())].to_vec();
+            if let Ok(Binary::Heap(ix)) = ex.allocate_binary(bytes.clone()) {
+                if heap.len() <= ix {
+                    heap.resize(ix + 1, vec![]);
+                }
+                heap[ix] = bytes;
+                handles.push(ix);
+            }
+        }
+        let d = Direct {
+            ntuples: tuples.len(),
+            nconsts: consts.len(),
+            heap_handles: handles,
+            arities: tuples.iter().map(|t| t.fields.len()).collect(),
+        };
+        let mut reqs = vec![ctxraw_line(&tuples, &canon, &consts, &heap)];
+        let mut pairs = vec![];
+        for _ in 0..8 {
+            let a = gen_raw(&mut r, &d, 2);
+            let b2 = if r.below(4) == 0 { gen_raw(&mut r, &d, 2) } else { vary_raw(&a, &mut r, &d) };
+            reqs.push(format!("(equal {} {})", render_val(&a), render_val(&b2)));
+            pairs.push((a, b2));
+        }
+        let ans = model.ask_all(&reqs);
+        for (k, (a, b2)) in pairs.iter().enumerate() {
+            let got = match qverif::catch(|| ex.verif_values_equal(a, b2)) {
+                Ok(x) => x.to_string(),
+                Err(p) => format!("panic {}", p.lines().next().unwrap_or("")),
+            };
+            let want = &ans[k + 1];
+            ev.case(&(i, k, render_val(a), render_val(b2)), true);
+            ev.hit(&format!("direct:{}:{got}", a.type_name()));
+            if stale {
+                ev.hit("direct:stale-canonical-table");
+            }
+            if &got != want {
+                // does the property fail on well-formed operands? (oracle: erasures)
+                let t = Tables { tuples: &tuples, consts: &consts, heap: &heap };
+                let (ea, eb) = (erase_str(a, &t), erase_str(b2, &t));
+                let wf_known = !ea.contains("bad") && !eb.contains("bad") && !stale;
+                let oracle_fails = wf_known && (got == "true") != (ea == eb);
+                ev.violation(
+                    &format!("tie=values_equal arm={}", a.type_name()),
+                    &format!("values_equal({}, {}) = {got}, model valuesEqual = {want}", render_val(a), render_val(b2)),
+                    json!({"broken": "correspondence model<->impl on values_equal (direct, verif hook)", "ctx": reqs[0], "a": render_val(a), "b": render_val(b2), "impl": got, "model": want, "erase_a": ea, "erase_b": eb}),
+                    oracle_fails,
+                );
+            }
+        }
+    }
+    // create_ref at and around the guard, on several worker ids
+    for w in [0u16, 1, 7, 65535] {
+        for start in [0u64, 5, (1 << 48) - 2, (1 << 48) + 3, u64::MAX - 2] {
+            let mut ex = qverif::run::Exec::new(b.clone(), false, w);
+            ex.verif_set_next_ref(start);
+            let mut c = start;
+            for _ in 0..4 {
+                let got = match qverif::catch(|| ex.verif_create_ref()) {
+                    Ok(Value::Reference(x)) => format!("ok {x} {}", c.wrapping_add(1)),
+                    Ok(other) => format!("other {other:?}"),
+                    Err(_) => "panic".to_string(),
+                };
+                let want = model.ask(&format!("(createref {w} {c})"));
+                ev.hit("direct:create_ref");
+                ev.case(&("create_ref", w, c), true);
+                if got != want {
+                    ev.violation(
+                        "tie=create_ref",
+                        &format!("create_ref on worker {w} at counter {c}: implementation {got}, model {want}"),
+                        json!({"broken": "correspondence model<->impl on create_ref", "worker": w, "counter": c, "impl": got, "model": want}),
+                        false,
+                    );
+                }
+                if got == "panic" {
+                    break;
+                }
+                c = c.wrapping_add(1);
+            }
         }
     }
 }
@@ -1015,6 +1249,7 @@ fn main() {
     part_sync(&mut ev, &mut model, &opts, &b);
     part_sim(&mut ev, &mut model, &opts, &b);
     part_refs(&mut ev, &mut model, &opts, &b);
+    part_direct(&mut ev, &mut model, &opts, &b);
     ev.set_extra("model_requests", json!(model.requests));
     std::process::exit(ev.finish());
 }
